@@ -100,3 +100,13 @@ Proof. exact client_buffer_never_exceeds. Qed.
 Theorem C03_skip_record_bounded : forall (calls : list (list N * dres (N * list N))) rec, len rec <= MAX_FRAME_LEN ->
   len (fold_left (fun rc c => record_after rc (fst c) (snd c)) calls rec) <= MAX_FRAME_LEN.
 Proof. exact record_always_bounded. Qed.
+
+(* non-vacuity of the buffer-bound hypotheses: a fresh connection satisfies them, and so does a script of short reads *)
+Example C03_bound_hypotheses_hold : rinv (server_bound RTU) rstate0 /\ len (rbuf rstate0) < server_bound RTU + 16
+  /\ sok [RData [1; 2; 3]; RPend; RData [4]] /\ chunks_le 16 [RData [1; 2; 3]; RPend; RData [4]]
+  /\ Forall (op_ok 16) [OCall false (ReqReadCoils 1 1) None [] [] [RData [1; 2]]; OSlave 3].
+Proof.
+  split; [intros _; vm_compute; reflexivity|]. split; [vm_compute; reflexivity|]. split; [vm_compute; reflexivity|].
+  split; [cbn; lia|].
+  constructor; [split; [vm_compute; reflexivity|cbn; lia]|]. constructor; [exact I|constructor].
+Qed.
